@@ -168,18 +168,20 @@ def evaluate(rules, client):
             acct = acct.split(":", 1)[0]
             if not glob_match(r["account"], acct):
                 continue
-        if r.get("address") is not None:
-            pm = parse_mask(r["address"])
-            if pm is None:
-                raise ValueError("model cannot read mask %r" % r["address"])
-            if not mask_match(client["addr"], pm[0], pm[1]):
-                continue
         if r.get("username") is not None and not glob_match(r["username"], client.get("ident") or ""):
             continue
         if r.get("hostname") is not None and not glob_match(r["hostname"], client.get("hostname") or ""):
             continue
         if r.get("xreply_ok") is not None and r["xreply_ok"].lower() not in client.get("ok_services", set()):
             continue
+        # (the address last: a rule whose address text is no mask at all is only ever generated together with a criterion that no
+        # client meets, so the model never has to say what such an address means)
+        if r.get("address") is not None:
+            pm = parse_mask(r["address"])
+            if pm is None:
+                raise ValueError("model cannot read mask %r" % r["address"])
+            if not mask_match(client["addr"], pm[0], pm[1]):
+                continue
         trusted = None
         if r.get("trust_username") in ("1", "true", "on", "enabled", "yes") and (client.get("ident") or "").startswith("~"):
             cu = client.get("cli_username") or ""
